@@ -163,6 +163,9 @@ decreasing_by
   | none => exact Nat.le_refl _
   | some r => simp only; split <;> omega
 
+/-- total number of coordinates in a list of lists -/
+def total (ls : List (List Int)) : Nat := (ls.map List.length).sum
+
 /-- The coordinate skeleton of a tree (payload values erased). -/
 def skel {κ ν : Type} : (d : Nat) → Tree κ ν d → Tree κ Unit d
   | 0, _ => ()
@@ -186,6 +189,10 @@ def swapsSpec (e : Nat) (radix : Option Nat) (lat : Lat) (depth : Nat)
     (s : Tree Int Unit (e + 2 + depth)) : Nat :=
   ((skelNodes e depth s).map (swapsAt radix lat)).sum
 
+/-- finite latency, closed form, as a function of the skeleton only -/
+def swapsSpecFin (e : Nat) (radix : Option Nat) (lat depth : Nat) (s : Tree Int Unit (e + 2 + depth)) : Nat :=
+  ((skelNodes e depth s).map (fun ls => roundsCost radix lat (total ls) ls.length)).sum
+
 /-- every element that `_numSwapsTree` iterates over is empty exactly when its skeleton
     shows it (false e.g. for a sub-fiber that stores only explicit defaults) -/
 def presentAgrees (dflt : Int) (e : Nat) : (depth : Nat) → Tree Int Int (e + 2 + depth) → Bool
@@ -200,7 +207,7 @@ def presentAgrees (dflt : Int) (e : Nat) : (depth : Nat) → Tree Int Int (e + 2
 A sorted buffer holds the current head `(coord, list index)` of every list, in emission
 order: smaller coordinate first, equal coordinates: larger list index first.  Bringing a
 new head into the buffer costs one comparison per buffered entry that is emitted before
-it, plus one. -/
+it, plus one.  (No negation, no stacks, no positions.) -/
 
 def ahead (x y : Int × Nat) : Bool := decide (x.1 < y.1) || (decide (x.1 = y.1) && decide (y.2 < x.2))
 
@@ -209,7 +216,7 @@ def bufInsert (buf : List (Int × Nat)) (e : Int × Nat) : List (Int × Nat) :=
 
 def bufCost (buf : List (Int × Nat)) (e : Int × Nat) : Nat := buf.countP (fun h => ahead h e) + 1
 
-/-- fill the buffer with the first coordinate of every (ascending) list -/
+/-- fill the buffer with the first coordinate of every list -/
 def specHeads : Nat → List (List Int) → List (Int × Nat) → Nat → List (List Int) × List (Int × Nat) × Nat
   | _, [], buf, cost => ([], buf, cost)
   | i, [] :: ls, buf, cost =>
@@ -220,17 +227,75 @@ def specHeads : Nat → List (List Int) → List (Int × Nat) → Nat → List (
     (l :: r.1, r.2.1, r.2.2)
 
 /-- emit the first buffered entry, bring in its successor -/
-def specDrain : Nat → List (List Int) → List (Int × Nat) → Nat → Nat
-  | 0, _, _, cost => cost
-  | _ + 1, _, [], cost => cost
-  | fuel + 1, lists, (_, i) :: buf, cost =>
+def specDrain : Nat → List (List Int) → List (Int × Nat) → List Int → Nat → Nat × List Int
+  | 0, _, _, out, cost => (cost, out)
+  | _ + 1, _, [], out, cost => (cost, out)
+  | fuel + 1, lists, (c, i) :: buf, out, cost =>
     match lists.getD i [] with
-    | [] => specDrain fuel lists buf cost
-    | c :: l => specDrain fuel (lists.set i l) (bufInsert buf (c, i)) (cost + bufCost buf (c, i))
+    | [] => specDrain fuel lists buf (out ++ [c]) cost
+    | c' :: l =>
+      specDrain fuel (lists.set i l) (bufInsert buf (c', i)) (out ++ [c]) (cost + bufCost buf (c', i))
 
-/-- comparison count of one `radix`-way merge of ascending coordinate lists -/
-def insertCompares (lists : List (List Int)) : Nat :=
+/-- one k-way merge of coordinate lists: comparison count and the (sorted) emitted list -/
+def insertMerge (lists : List (List Int)) : Nat × List Int :=
   let s := specHeads 0 lists [] 0
-  specDrain (lists.map List.length).sum s.1 s.2.1 s.2.2
+  let r := specDrain (lists.map List.length).sum s.1 s.2.1 [] s.2.2
+  (r.1, pySort r.2)
+
+theorem ceilDiv_zero (r : Nat) (hr : r ≠ 0) : ceilDiv 0 r = 0 := by
+  unfold ceilDiv
+  rw [Nat.div_eq_zero_iff]; right; omega
+
+theorem ceilDiv_step (k r : Nat) (hr : r ≠ 0) (hk : k ≠ 0) : ceilDiv k r = ceilDiv (k - r) r + 1 := by
+  unfold ceilDiv
+  by_cases h : r ≤ k
+  · have : k + r - 1 = (k - r + r - 1) + r := by omega
+    rw [this, Nat.add_div_right _ (by omega)]
+  · have h1 : k - r = 0 := by omega
+    rw [h1]
+    have h2 : (0 + r - 1) / r = 0 := by
+      rw [Nat.div_eq_zero_iff]; right; omega
+    rw [h2]
+    have h3 : k + r - 1 = (k - 1) + r := by omega
+    rw [h3, Nat.add_div_right _ (by omega)]
+    have h4 : (k - 1) / r = 0 := by
+      rw [Nat.div_eq_zero_iff]; right; omega
+    rw [h4]
+
+theorem length_chunks {α : Type} (r : Nat) (hr : r ≠ 0) (l : List α) :
+    (chunks r l).length = ceilDiv l.length r := by
+  fun_induction chunks r l with
+  | case1 l h =>
+    rcases h with h | h
+    · exact absurd h hr
+    · simp [h, ceilDiv_zero r hr]
+  | case2 l h ih =>
+    have hl : l.length ≠ 0 := by
+      intro h0; exact h (Or.inr (List.length_eq_zero_iff.1 h0))
+    simp only [List.length_cons, ih, List.length_drop]
+    rw [ceilDiv_step l.length r hr hl]
+
+theorem clampRadix_le (radix : Option Nat) (k : Nat) : clampRadix radix k ≤ k := by
+  unfold clampRadix
+  cases radix with
+  | none => exact Nat.le_refl _
+  | some r => simp only; split <;> omega
+
+/-- unbounded latency: every round merges the lists in groups of `min(radix, k)`; each
+    merge is charged its insertion comparisons and leaves its emitted list -/
+def roundsInf (radix : Option Nat) (lists : List (List Int)) : Nat :=
+  if h : 2 ≤ lists.length ∧ 2 ≤ clampRadix radix lists.length then
+    let ms := (chunks (clampRadix radix lists.length) lists).map insertMerge
+    (ms.map (·.1)).sum + roundsInf radix (ms.map (·.2))
+  else 0
+termination_by lists.length
+decreasing_by
+  simp only [List.length_map]
+  rw [length_chunks _ (by omega)]
+  exact ceilDiv_lt h.1 h.2 (clampRadix_le radix lists.length)
+
+/-- the swap count with unbounded latency as a function of the skeleton only -/
+def swapsSpecInf (e : Nat) (radix : Option Nat) (depth : Nat) (s : Tree Int Unit (e + 2 + depth)) : Nat :=
+  ((skelNodes e depth s).map (roundsInf radix)).sum
 
 end Ft
